@@ -206,6 +206,17 @@ impl CaseEngine for C07 {
         // a progress line is emitted per mutant and variant; a mutant takes milliseconds of CPU
         12.0
     }
+    fn file_size_limit(&self) -> Option<u64> {
+        // write-ahead-log recovery of a damaged log can extend a data file to terabytes (KF-C07-2), and the code then
+        // walks / copies it, really allocating tens of GB within seconds: no file of a worker may exceed 1 GiB
+        // (bigger requests fail with EFBIG, which the code under test reports as an error)
+        Some(1 << 30)
+    }
+    fn max_worker_deaths(&self) -> u64 {
+        // aborts on allocation requests above the cap are open known findings here (KF-C07-1..3): a death costs a
+        // respawn, not a timeout
+        100_000
+    }
     fn max_stuck_cases(&self) -> u64 {
         // mutants that make a *read* of an opened database spin (inconclusive here) are common on the unchanged tree:
         // they must not end the exploration of the other mutants
